@@ -41,6 +41,7 @@ def one(name):
     if sh("git -C /repo worktree add -q --detach %s HEAD" % wt).returncode != 0:
         return (name, prop, "worktree failed", "")
     caught = []
+    errors = []
     try:
         if sh("git -C %s apply %s/patch.diff" % (wt, d)).returncode != 0:
             return (name, prop, "patch does not apply any more", "")
@@ -49,12 +50,16 @@ def one(name):
             r = sh("cd %s && VERIF_REPO=%s VERIF_NOEVIDENCE=1 ./check %s --tier quick" % (SNAP, wt, chk))
             if r.returncode == 1 and "VIOLATION property=%s" % chk in r.stdout:
                 caught.append(chk)
-            elif r.returncode not in (0, 1):
+            elif r.returncode != 0:
+                # exit 2 (infrastructure) or a crash: not a detection result
                 print(r.stdout[-1500:])
+                errors.append(chk)
             print("%s %s rc=%d %.0fs" % (name, chk, r.returncode, time.time() - t), flush=True)
     finally:
         sh("git -C /repo worktree remove --force %s" % wt)
         shutil.rmtree(wt, ignore_errors=True)
+    if errors and not caught:
+        return (name, prop, "ERROR in " + ",".join(errors), "")
     meta["detected_now_by"] = caught
     meta["detection_run"] = time.strftime("%Y-%m-%d %H:%M")
     json.dump(meta, open(os.path.join(d, "meta.json"), "w"), indent=1)
